@@ -536,22 +536,35 @@ func concJob(progs []string, segs int, cfg vsched.Config) sdrv.Job {
 			k, _ := b.ArrangeBlock()
 			pre[k] = true
 		}
-		held := map[int]int{} // index -> owner thread (+1)
+		// model: definite owners, number of FreeBlock calls in flight per index, number of ArrangeBlock calls in flight
+		owner := map[int]int{} // index -> owner thread (+1); 100 = pre-allocated, not owned by a thread yet
 		for k := range pre {
-			held[k] = 100
+			owner[k] = 100
 		}
-		inflightAlloc, inflightFree := 0, map[int]bool{}
+		freeing := map[int]int{}
+		inflightAlloc := 0
 		done := make([]bool, len(progs))
 		crash := func(where string) {
-			// crash point: reopen a copy of the bytes; every block that is definitely held must be allocated,
-			// every block that is definitely free must be free; in-flight operations may be either side.
+			// crash point: reopen a copy of the bytes. Every block with a definite owner must be allocated, every block
+			// that is definitely free must be free; operations in flight may be on either side.
 			if obs.problem != "" {
 				return
 			}
-			all, _ := buf.Buffer(0, int(buf.Size()))
-			cp := gbytes.NewInMemBytes(len(all))
-			d, _ := cp.Buffer(0, len(all))
-			copy(d, all)
+			// the byte snapshot and the snapshot of the model are taken in one step (no scheduling point in between);
+			// everything after that works on private copies, so it does not matter if this thread is preempted
+			live, _ := buf.Buffer(0, int(buf.Size()))
+			cp := gbytes.NewInMemBytes(len(live))
+			all, _ := cp.Buffer(0, len(live))
+			copy(all, live)
+			ownerSnap := map[int]int{}
+			for k, v := range owner {
+				ownerSnap[k] = v
+			}
+			freeSnap := map[int]int{}
+			for k, v := range freeing {
+				freeSnap[k] = v
+			}
+			allocInFlight := inflightAlloc
 			b2, err := gbytes.NewBlocks(bs, cp, true)
 			if err != nil {
 				obs.problem = "crash-reopen: " + err.Error()
@@ -562,10 +575,10 @@ func concJob(progs []string, segs int, cfg vsched.Config) sdrv.Job {
 				hb := all[int64(i/8)*segSize(bs)+int64(i%8)/8]
 				if hb&(1<<uint(i%8)) != 0 {
 					allocated++
-					if _, ok := held[i]; !ok && inflightAlloc == 0 {
-						obs.problem = fmt.Sprintf("crash point %s: block %d is marked allocated in the bytes but nobody holds it and no allocation is in flight", where, i)
+					if _, ok := ownerSnap[i]; !ok && allocInFlight == 0 && freeSnap[i] == 0 {
+						obs.problem = fmt.Sprintf("crash point %s: block %d is marked allocated in the bytes but nobody holds it and no operation on it is in flight", where, i)
 					}
-				} else if _, ok := held[i]; ok && !inflightFree[i] {
+				} else if _, ok := ownerSnap[i]; ok {
 					obs.problem = fmt.Sprintf("crash point %s: block %d is held by a caller but free in the bytes", where, i)
 				}
 			}
@@ -589,10 +602,11 @@ func concJob(progs []string, segs int, cfg vsched.Config) sdrv.Job {
 							continue
 						}
 						vsched.Note("t%d arrange -> %d", t, i)
-						if o, ok := held[i]; ok && obs.problem == "" {
+						// (a block whose FreeBlock call is still in flight has no owner any more: it may be handed out again)
+						if o, ok := owner[i]; ok && obs.problem == "" {
 							obs.problem = fmt.Sprintf("index %d handed out to t%d while still held by owner %d", i, t, o-1)
 						}
-						held[i] = t + 1
+						owner[i] = t + 1
 						mine = append(mine, i)
 						blk, _ := b.Block(i)
 						for k := range blk {
@@ -607,7 +621,7 @@ func concJob(progs []string, segs int, cfg vsched.Config) sdrv.Job {
 						} else {
 							i = -1
 							for k := 0; k < 8*segs; k++ {
-								if held[k] == 100 {
+								if owner[k] == 100 {
 									i = k
 									break
 								}
@@ -616,12 +630,10 @@ func concJob(progs []string, segs int, cfg vsched.Config) sdrv.Job {
 								continue
 							}
 						}
-						inflightFree[i] = true
-						delete(held, i)
-						held[i] = -1 // being freed: not available to the model until FreeBlock returns
+						delete(owner, i) // ownership ends with the call; the free takes effect somewhere inside it
+						freeing[i]++
 						err := b.FreeBlock(i)
-						delete(held, i)
-						delete(inflightFree, i)
+						freeing[i]--
 						vsched.Note("t%d free %d -> %v", t, i, err)
 						if err != nil && obs.problem == "" {
 							obs.problem = fmt.Sprintf("FreeBlock(%d) of a held block returned %v", i, err)
@@ -641,12 +653,7 @@ func concJob(progs []string, segs int, cfg vsched.Config) sdrv.Job {
 			return true
 		})
 		if obs.problem == "" {
-			n := 0
-			for _, o := range held {
-				if o != -1 {
-					n++
-				}
-			}
+			n := len(owner)
 			if b.Available() != b.Count()-n {
 				obs.problem = fmt.Sprintf("at quiescence Available()=%d but %d of %d blocks are held", b.Available(), n, b.Count())
 			}
